@@ -1,0 +1,246 @@
+//go:build verif
+
+package main
+
+import (
+	"fmt"
+	"go/ast"
+	"go/parser"
+	"go/token"
+	"go/types"
+	"sort"
+	"strconv"
+	"strings"
+)
+
+// Packages type-checked from generated source by the "tsrc" op, importable by later ones.
+type verifPkg struct {
+	pkg  *types.Package
+	info *types.Info
+	fset *token.FileSet
+	file *ast.File
+}
+
+var verifPkgs = map[string]*verifPkg{}
+
+type verifImporter struct{}
+
+func (verifImporter) Import(path string) (*types.Package, error) {
+	if p := verifPkgs[path]; p != nil {
+		return p.pkg, nil
+	}
+	return nil, fmt.Errorf("verif: package %q not loaded", path)
+}
+
+// verifSexpr serialises a go/types type as comma-separated prefix tokens (DESIGN.md appendix B).
+func verifSexpr(sb *strings.Builder, t types.Type) {
+	w := func(s string) {
+		if sb.Len() > 0 {
+			sb.WriteByte(',')
+		}
+		sb.WriteString(s)
+	}
+	switch t := t.(type) {
+	case *types.Basic:
+		w("B" + strconv.Itoa(int(t.Kind())))
+	case *types.Alias:
+		w("L")
+		w(verifHex([]byte(t.Obj().Name())))
+		verifSexpr(sb, t.Rhs())
+	case *types.Named:
+		w("N")
+		pkg := ""
+		if t.Obj().Pkg() != nil {
+			pkg = t.Obj().Pkg().Path()
+		}
+		w(verifHex([]byte(pkg)))
+		w(verifHex([]byte(t.Obj().Name())))
+		w(strconv.Itoa(t.TypeArgs().Len()))
+		for ta := range t.TypeArgs().Types() {
+			verifSexpr(sb, ta)
+		}
+	case *types.Pointer:
+		w("P")
+		verifSexpr(sb, t.Elem())
+	case *types.Slice:
+		w("S")
+		verifSexpr(sb, t.Elem())
+	case *types.Array:
+		w("A")
+		w(strconv.FormatInt(t.Len(), 10))
+		verifSexpr(sb, t.Elem())
+	case *types.Map:
+		w("M")
+		verifSexpr(sb, t.Key())
+		verifSexpr(sb, t.Elem())
+	case *types.Chan:
+		w("C")
+		w(strconv.Itoa(int(t.Dir())))
+		verifSexpr(sb, t.Elem())
+	case *types.Struct:
+		w("T")
+		w(strconv.Itoa(t.NumFields()))
+		for i := range t.NumFields() {
+			f := t.Field(i)
+			w("F")
+			w(verifHex([]byte(f.Name())))
+			w(map[bool]string{false: "0", true: "1"}[f.Anonymous()])
+			pkg := ""
+			if f.Pkg() != nil {
+				pkg = f.Pkg().Path()
+			}
+			w(verifHex([]byte(pkg)))
+			w(map[bool]string{false: "0", true: "1"}[f.Exported()])
+			w(verifHex([]byte(t.Tag(i))))
+			verifSexpr(sb, f.Type())
+		}
+	case *types.Signature:
+		w("X")
+		w(map[bool]string{false: "0", true: "1"}[t.Variadic()])
+		w(strconv.Itoa(t.Params().Len()))
+		for v := range t.Params().Variables() {
+			verifSexpr(sb, v.Type())
+		}
+		w(strconv.Itoa(t.Results().Len()))
+		for v := range t.Results().Variables() {
+			verifSexpr(sb, v.Type())
+		}
+	case *types.Interface:
+		w("I")
+		w(strconv.Itoa(t.NumMethods()))
+	case *types.TypeParam:
+		w("G")
+		w(strconv.Itoa(t.Index()))
+	default:
+		panic(fmt.Sprintf("verifSexpr: unsupported %T", t))
+	}
+}
+
+func verifTypeStr(t types.Type) string {
+	var sb strings.Builder
+	verifSexpr(&sb, t)
+	return sb.String()
+}
+
+func verifEvalType(pkgPath, expr string) types.Type {
+	p := verifPkgs[pkgPath]
+	if p == nil {
+		panic("package not loaded: " + pkgPath)
+	}
+	tv, err := types.Eval(p.fset, p.pkg, p.file.End(), expr)
+	if err != nil {
+		panic("eval " + expr + ": " + err.Error())
+	}
+	return tv.Type
+}
+
+// verifStructOf returns the struct garble would hash for a field of t: for a named type the
+// underlying struct of its origin, otherwise the struct itself.
+func verifStructs(t types.Type) (inst *types.Struct, origin *types.Struct) {
+	t = types.Unalias(t)
+	if n, ok := t.(*types.Named); ok {
+		inst, _ = n.Underlying().(*types.Struct)
+		origin, _ = n.Origin().Underlying().(*types.Struct)
+		return
+	}
+	inst, _ = t.(*types.Struct)
+	return inst, inst
+}
+
+var _ = func() bool {
+	// tsrc <pkgpath> <source> : parse and type-check one generated file as a package
+	verifOps["tsrc"] = func(a []string) string {
+		path := string(verifUnhex(a[0]))
+		fs := token.NewFileSet()
+		f, err := parser.ParseFile(fs, path+"/gen.go", verifUnhex(a[1]), parser.SkipObjectResolution)
+		if err != nil {
+			return "err parse " + verifHex([]byte(err.Error()))
+		}
+		info := &types.Info{
+			Types:      make(map[ast.Expr]types.TypeAndValue),
+			Defs:       make(map[*ast.Ident]types.Object),
+			Uses:       make(map[*ast.Ident]types.Object),
+			Selections: make(map[*ast.SelectorExpr]*types.Selection),
+			Instances:  make(map[*ast.Ident]types.Instance),
+		}
+		conf := types.Config{Importer: verifImporter{}}
+		pkg, err := conf.Check(path, fs, []*ast.File{f}, info)
+		if err != nil {
+			return "err types " + verifHex([]byte(err.Error()))
+		}
+		verifPkgs[path] = &verifPkg{pkg, info, fs, f}
+		return "ok"
+	}
+	// ttype <pkg> <expr> -> sexpr
+	verifOps["ttype"] = func(a []string) string {
+		return verifTypeStr(verifEvalType(string(verifUnhex(a[0])), string(verifUnhex(a[1]))))
+	}
+	// tstruct <pkg> <expr> -> <sexpr of the (instantiated) struct> <its hash> <sexpr of origin struct> <its hash>
+	verifOps["tstruct"] = func(a []string) string {
+		inst, origin := verifStructs(verifEvalType(string(verifUnhex(a[0])), string(verifUnhex(a[1]))))
+		if inst == nil {
+			return "nostruct"
+		}
+		return fmt.Sprintf("%s %d %s %d", verifTypeStr(inst), typeutil_hash(inst), verifTypeStr(origin), typeutil_hash(origin))
+	}
+	// tident <pkg> <expr1> <expr2> -> sexpr1 sexpr2 identicalIgnoreTags identical
+	verifOps["tident"] = func(a []string) string {
+		t1 := verifEvalType(string(verifUnhex(a[0])), string(verifUnhex(a[1])))
+		t2 := verifEvalType(string(verifUnhex(a[0])), string(verifUnhex(a[2])))
+		b := func(x bool) int {
+			if x {
+				return 1
+			}
+			return 0
+		}
+		return fmt.Sprintf("%s %s %d %d", verifTypeStr(t1), verifTypeStr(t2), b(types.IdenticalIgnoreTags(t1, t2)), b(types.Identical(t1, t2)))
+	}
+	// hfield <pkg> <expr> <index> -> hashWithStruct(origin struct, field index) and the field name
+	verifOps["hfield"] = func(a []string) string {
+		_, origin := verifStructs(verifEvalType(string(verifUnhex(a[0])), string(verifUnhex(a[1]))))
+		if origin == nil {
+			return "nostruct"
+		}
+		i := verifInt(a[2])
+		if i >= origin.NumFields() {
+			return "nofield"
+		}
+		f := origin.Field(i)
+		return verifHex([]byte(hashWithStruct(origin, f))) + " " + verifHex([]byte(f.Name()))
+	}
+	// fstruct <pkg> -> for every field object referenced in the package (uses, defs, selections), whether the
+	// real computeFieldToStruct maps its origin to a struct, and that struct's hash
+	verifOps["fstruct"] = func(a []string) string {
+		p := verifPkgs[string(verifUnhex(a[0]))]
+		m := computeFieldToStruct(p.info)
+		seen := map[string]bool{}
+		add := func(obj types.Object) {
+			v, ok := obj.(*types.Var)
+			if !ok || !v.IsField() {
+				return
+			}
+			s := m[v.Origin()]
+			if s == nil {
+				seen[v.Name()+":missing"] = true
+			} else {
+				seen[fmt.Sprintf("%s:%d", v.Name(), typeutil_hash(s))] = true
+			}
+		}
+		for _, o := range p.info.Uses {
+			add(o)
+		}
+		for _, o := range p.info.Defs {
+			add(o)
+		}
+		for _, s := range p.info.Selections {
+			add(s.Obj())
+		}
+		var l []string
+		for k := range seen {
+			l = append(l, k)
+		}
+		sort.Strings(l)
+		return verifList(l)
+	}
+	return true
+}()
